@@ -13,6 +13,7 @@ import Driver.RC
 import Driver.CC
 import Driver.RX
 import Driver.E2E
+import Driver.MD
 /-!
 Line-protocol driver: one operation per input line, one observation per output line:
 `<model observation>\t<spec observation>`.  First token selects the component.
@@ -35,6 +36,7 @@ structure All where
   cc : CC.St := {}
   rx : RX.St := {}
   e2e : E2E.St := {}
+  md : MD.St := {}
 
 def stepAll (s : All) (line : String) : All × String :=
   match (line.trimAscii.toString.splitOn " ").filter (· ≠ "") with
@@ -83,6 +85,9 @@ def stepAll (s : All) (line : String) : All × String :=
   | "rx" :: args =>
       let (c, a, b) := RX.step s.rx args
       ({ s with rx := c }, a ++ "\t" ++ b)
+  | "md" :: args =>
+      let (c, a, b) := MD.step s.md args
+      ({ s with md := c }, a ++ "\t" ++ b)
   | [] => (s, "")
   | _ => (s, "bad-component\tbad-component")
 
